@@ -181,6 +181,7 @@ func cmdRun(args []string) int {
 	cfg.Tier = *tier
 	cfg.Trace = *trace
 	cfg.MaxPathSecs = *pathSecs
+	cfg.NoFastPath = os.Getenv("VF_NOFASTPATH") != ""
 	if *prof != "" {
 		f, _ := os.Create(*prof)
 		pprof.StartCPUProfile(f)
